@@ -36,6 +36,10 @@ import (
 	"verif/harness/gen"
 
 	"github.com/mandykoh/prism"
+
+	"sync/atomic"
+
+	"github.com/mandykoh/prism/linear"
 )
 
 const maxG = 128
@@ -356,6 +360,8 @@ func trialMixed(ts []*target, n int) bool {
 // sharedWork exercises the other concurrency claims of C11 in the same -race
 // process: image transforms with parallelism > 1 on shared images, concurrent
 // loaders, concurrent adaptation constructors.
+var sharedWorkFailed bool
+
 func sharedWork(file []byte) {
 	// files of the other formats next to the one given: concurrent loads of DIFFERENT formats
 	var others [][]byte
@@ -386,6 +392,41 @@ func sharedWork(file []byte) {
 				prism.ConvertImageToNRGBA(crop, par)
 				prism.ConvertImageToRGBA64(crop, par)
 				prism.ConvertImageToRGBA(crop, par)
+			}
+		}
+	}
+	// the generic transform with a colour function that makes the library's workers advance in
+	// lockstep: they reach every hand-over point together; rows below the destination window are guarded
+	for par := 2; par <= 4; par++ {
+		for rep := 0; rep < 150; rep++ {
+			rows := par + 1 + rep%3
+			small := image.NewNRGBA(image.Rect(0, 0, 1, rows))
+			for i := range small.Pix {
+				small.Pix[i] = byte(i*29 + rep)
+			}
+			parent := image.NewRGBA64(image.Rect(0, 0, 1, rows+par+2))
+			for i := range parent.Pix {
+				parent.Pix[i] = 0xA5
+			}
+			win := parent.SubImage(image.Rect(0, 0, 1, rows)).(*image.RGBA64)
+			var arrived int64
+			f := func(c color.Color) color.RGBA64 {
+				n := atomic.AddInt64(&arrived, 1)
+				target := ((n-1)/int64(par) + 1) * int64(par)
+				deadline := time.Now().Add(200 * time.Microsecond)
+				for atomic.LoadInt64(&arrived) < target && time.Now().Before(deadline) {
+					runtime.Gosched()
+				}
+				r, g, b, a := c.RGBA()
+				return color.RGBA64{R: uint16(b), G: uint16(r), B: uint16(g), A: uint16(a)}
+			}
+			linear.TransformImageColor(win, small, par, f)
+			for i := rows * parent.Stride; i < len(parent.Pix); i++ {
+				if parent.Pix[i] != 0xA5 {
+					fmt.Printf("VALUE-MISMATCH target=linear.TransformImageColor(lockstep) parallelism=%d rows=%d: byte %d below the destination window was written\n", par, rows, i)
+					sharedWorkFailed = true
+					i = len(parent.Pix)
+				}
 			}
 		}
 	}
@@ -492,5 +533,8 @@ func main() {
 		data, _ = os.ReadFile(*file)
 	}
 	sharedWork(data)
+	if sharedWorkFailed && exit == 0 {
+		exit = 3
+	}
 	os.Exit(exit)
 }
